@@ -140,6 +140,14 @@ def pytype(v):
             return shapely.geometry.Point if v.kind == "point" else shapely.geometry.Polygon
         if type(v).__name__ == "STRtreeModel":
             return shapely.strtree.STRtree
+    if type(v).__module__ == "pyvc.xmlmodel":
+        if type(v).__name__ == "XElem":
+            import xml.etree.ElementTree as _ET
+            from lxml import etree as _lx
+
+            return _lx._Element if v.flavour == "lxml" else _ET.Element
+        if type(v).__name__ == "NumText":
+            return str
     return type(v)
 
 
@@ -598,6 +606,20 @@ class Ctx:
         return ob
 
     def _second_opinion(self, cond):
+        try:
+            # equalities among the hypotheses are eliminated first (makes congruent terms syntactically equal)
+            s3 = z3.Then("simplify", "propagate-values", "solve-eqs", "simplify", "smt").solver()
+            s3.set("timeout", self.timeout_ms)
+            for a in list(self.solver.assertions()) + list(self.lazy_axioms):
+                s3.add(a)
+            s3.add(z3.Not(cond))
+            t0 = time.time()
+            r3 = s3.check()
+            self.solver_secs += time.time() - t0
+            if r3 == z3.unsat:
+                return "discharged", None, "z3-solve-eqs"
+        except z3.Z3Exception:
+            pass
         if self.nlsat_check(cond) == z3.unsat:
             return "discharged", None, "z3-nlsat"
         if self.thorough:
